@@ -59,8 +59,11 @@ pub fn install_quiet_panic_hook() {
 		let text = format!("{loc}: {msg}");
 		LAST_PANIC.with(|p| *p.borrow_mut() = Some(text.clone()));
 		*GLOBAL_LAST_PANIC.lock().unwrap_or_else(|e| e.into_inner()) = Some(text);
-		if std::env::var_os("VERIF_SHOW_PANICS").is_some() {
-			eprintln!("panic: {loc}: {msg}");
+		if let Some(v) = std::env::var_os("VERIF_SHOW_PANICS") {
+			eprintln!("panic [{:?}]: {loc}: {msg}", std::thread::current().name());
+			if v == "2" {
+				eprintln!("{}", std::backtrace::Backtrace::force_capture());
+			}
 		}
 	}));
 }
